@@ -41,7 +41,8 @@ class Site:
 
 
 def _mentions_eps2(e):
-    return "eps2" in A.refs(e)
+    """the expression refers to a switch threshold constant (eps2 or a constant whose name starts with eps2, e.g. eps2_tails)"""
+    return any(str(r).startswith("eps2") for r in A.refs(e))
 
 
 def find_sites(idx):
@@ -273,7 +274,7 @@ def analyse_site(site, weights):
         lhs, rhs = rhs, lhs
         op = {"<": ">", ">": "<", "<=": ">=", ">=": "<="}[op]
     # rhs is the threshold expression: Scalar(eps2) possibly scaled
-    thr_env = Env({"kind": "none"}, {"eps2": jet.Series.const(W_EPS2["value"])})
+    thr_env = Env({"kind": "none"}, {nm: jet.Series.const(v) for nm, v in W_EPS2["all"].items()})
     thr = None
     try:
         thr_s = thr_env.ev(rhs)
@@ -326,18 +327,24 @@ def analyse_site(site, weights):
     }
 
 
-W_EPS2 = {"value": None}
+W_EPS2 = {"value": None, "all": {}}
 
 
 def find_eps2(idx):
-    """Value of the namespace-scope constant `eps2` (read from its initialiser in the AST)."""
+    """Value of the namespace-scope constant `eps2` (read from its initialiser in the AST); every threshold constant whose name
+    starts with eps2 is recorded in W_EPS2["all"]."""
+    found = {}
     for d in idx:
-        if d.kind == "VarDecl" and d.qname.split("::")[-1] == "eps2" and d.file and d.file.startswith(fe.INCLUDE):
-            init = [k for k in A.kids(d.node)]
+        nm = d.qname.split("::")[-1]
+        if d.kind == "VarDecl" and nm.startswith("eps2") and d.file and d.file.startswith(fe.INCLUDE):
+            init = [k for k in A.kids(d.node) if not str(k.get("kind", "")).endswith("Comment")]
             if init:
                 e = A.to_expr(init[-1])
                 if e[0] == "num":
-                    return e[1]
+                    found[nm] = e[1]
+    W_EPS2["all"] = found
+    if "eps2" in found:
+        return found["eps2"]
     raise fe.Broken("namespace-scope constant eps2 with a literal initialiser not found")
 
 
@@ -414,8 +421,8 @@ def run(rep, pid, idx=None):
             except jet.Unsupported as ex:
                 rep.broke("cannot abstract switch in %s (%s:%s): %s" % (fq, fe.rel(s.file), s.line, ex))
                 continue
-            if r["threshold"] is None or not (0 < r["threshold"] < 1):
-                rep.broke("threshold of switch in %s not a constant in (0,1)" % fq)
+            if r["threshold"] is None or not (0 < r["threshold"] <= 4):
+                rep.broke("threshold of switch in %s not a constant in (0,4]" % fq)
                 continue
             theta = math.sqrt(r["threshold"])
             # J0
